@@ -35,6 +35,33 @@ theorem consumes_nodup (tx : Tx O) : (consumes tx).Nodup := by
   · exact (consumes_invalid tx h).1
   · exact (consumes_valid tx h).1
 
+/-- what is kept are the FIRST occurrences, in their order: the positions of first occurrence in
+    the consumed source list are strictly increasing along the result -/
+theorem consumes_first_occurrence_order (tx : Tx O) :
+    let src := match tx.valid with | true => tx.inputs | false => tx.collateral
+    (consumes tx).Pairwise (fun a b => src.idxOf a < src.idxOf b) := by
+  simp only [consumes]
+  exact filterInsert_first_order _ []
+
+/-- the three clauses pin the result down: any list without repetitions, with the elements of the
+    source, ordered by first occurrence, IS `consumes` -/
+theorem consumes_unique (tx : Tx O) (res : List TxIn)
+    (hm : ∀ z, z ∈ res ↔ z ∈ (match tx.valid with | true => tx.inputs | false => tx.collateral))
+    (ho : res.Pairwise (fun a b =>
+      (match tx.valid with | true => tx.inputs | false => tx.collateral).idxOf a <
+      (match tx.valid with | true => tx.inputs | false => tx.collateral).idxOf b)) :
+    res = consumes tx := by
+  apply unique_of_pairwise
+    (fun a b : TxIn => (match tx.valid with | true => tx.inputs | false => tx.collateral).idxOf a <
+      (match tx.valid with | true => tx.inputs | false => tx.collateral).idxOf b)
+    (fun a => Nat.lt_irrefl _) (fun a b h => Nat.lt_asymm h) res (consumes tx) ho
+    (consumes_first_occurrence_order tx)
+  intro z
+  rw [hm z]
+  cases h : tx.valid
+  · exact ((consumes_invalid tx h).2.1 z).symm
+  · exact ((consumes_valid tx h).2.1 z).symm
+
 /-- without duplicates among the inputs nothing is dropped or reordered -/
 theorem consumes_valid_of_nodup (tx : Tx O) (h : tx.valid = true) (hn : tx.inputs.Nodup) :
     consumes tx = tx.inputs := by
